@@ -119,6 +119,10 @@ class Hooks:
     def pure(self, callee):
         return callee in PURE
 
+    def pinned(self, ptrexpr):
+        """memory cell whose fact survives calls (declared input of a decision cell)"""
+        return False
+
     def init_facts(self, fn):
         return {}
 
@@ -311,7 +315,7 @@ class Flow:
                 if self._useblocks.get(k, set()) & reach:
                     out[k] = v
             elif k[0] == "M":
-                if self._loadkeys.get(k[1], set()) & reach:
+                if self._loadkeys.get(k[1], set()) & reach or self.hooks.pinned(k[1]):
                     out[k] = v
             elif k[0] == "A":
                 if self._useblocks.get(k[1], set()) & reach:
@@ -465,6 +469,8 @@ class Flow:
                 if isinstance(kroot, tuple) and kroot[0] == "alloca" and kroot[1] not in argroots \
                         and kroot[1] not in self._escaped:
                     out[k] = v
+                elif self.hooks.pinned(k[1]):
+                    out[k] = v
                 continue
             out[k] = v
         return out
@@ -548,10 +554,15 @@ class Flow:
                 r = hooks.on_inst(inst, prop, E)
                 if r is KILL:
                     return
+                forks = None
+                extra = None
                 if isinstance(r, list):
-                    # property state forks (e.g. callee may or may not have an effect)
-                    for p2 in r[1:]:
-                        self._continue(B, inst, p2, dict(facts), trace, work)
+                    # property state forks (e.g. callee succeeded / failed), optionally with the
+                    # correlated facts: elements are prop or (prop, {ref: av})
+                    forks = r[1:]
+                    r = r[0]
+                if isinstance(r, tuple) and len(r) == 2 and isinstance(r[1], dict) and r[1].get("__facts__"):
+                    extra = r[1]
                     r = r[0]
                 prop = r
                 cal = inst.callee
@@ -575,12 +586,30 @@ class Flow:
                     hooks.on_end(inst, prop, Eval(self, facts))
                     self.end_states.append((inst, prop, facts, trace))
                     return
+                base_facts = facts
                 v = hooks.call_value(inst, Eval(self, facts))
                 if v is False:
                     return  # callee never returns (bottom summary)
                 if v is not None:
                     facts = dict(facts)
                     facts[inst.ref] = v
+                if extra:
+                    facts = dict(facts)
+                    for k2, v2 in extra.items():
+                        if k2 != "__facts__":
+                            facts[k2] = v2
+                if forks:
+                    for fk in forks:
+                        f2 = dict(base_facts)
+                        if v is not None:
+                            f2[inst.ref] = v
+                        p2 = fk
+                        if isinstance(fk, tuple) and len(fk) == 2 and isinstance(fk[1], dict) and fk[1].get("__facts__"):
+                            p2 = fk[0]
+                            for k2, v2 in fk[1].items():
+                                if k2 != "__facts__":
+                                    f2[k2] = v2
+                        self._continue(B, inst, p2, f2, trace, work)
                 continue
             if op == "ret":
                 r = hooks.on_inst(inst, prop, E)
